@@ -14,19 +14,20 @@ RULE = ('histories = constructor + random interleavings of queueMsg/sendMsg/take
         'rateLimit.join > 0 and several JOINs) clauses are evaluated directly on the implementation.  non-trivial = distinct history with at least one takeMsg')
 TRUSTED = ['the clock (irclib.time.time), the composite outFilter chain (any function msg -> pass | rewrite | drop+delay) and the '
            'configuration enter the model as inputs; IrcMsg.__eq__ is modelled as equality of (command, content key)',
-           '_truncateMsg, label tagging and echo emulation inside takeMsg are not modelled (they do not touch the send state); '
+           'of _truncateMsg only the UTF-8 encodability test is modelled (an unencodable message leaves takeMsg through the firewall); truncation itself, label tagging and echo emulation are not modelled (they do not touch the send state); '
            'they run in the differential test, where an exception in them would show up as a lost message']
-ASSUMPTIONS = ['world.testing/log.testing off; each queued IrcMsg is a fresh object; supybot.protocols.irc.umodes empty',
+ASSUMPTIONS = ['a message whose line has no UTF-8 form (lone surrogate) cannot be sent at all: that takeMsg discards it (UnicodeEncodeError from _truncateMsg behind the firewall, since the fix of C06.F19) is not counted as a loss; the oracle accepts this only when the message, as the filters left it, really cannot be encoded, and demands that nothing unencodable is ever handed to the driver',
+               'world.testing/log.testing off; each queued IrcMsg is a fresh object; supybot.protocols.irc.umodes empty',
                'die() before the end of MOTD (afterConnect false) closes the driver at once by design: the drain clause is '
                'checked for die() issued after 376/422 only',
                'a history ends when driver.die() has been called']
 LEVEL_TEXT = ('Coq theorems over an executable Gallina model of IrcMsgQueue and Irc.queueMsg/sendMsg/takeMsg/die/reset (clock, filter chain '
               'and settings as inputs), for all histories: multiset ledger accepted = delivered + dropped-by-filter + flushed-by-reset + pending '
               'with unique ghost stamps (no loss, no duplication), explicit refusal by queueMsg, class priority, FIFO within a class (JOINs exempt), '
-              'throttle and JOIN-rate spacing, filter drop = continue on the rest; queue drain before driver.die() on a decidable domain with '
-              'refuting witnesses outside (finding F18), silent refusal by sendMsg (finding F18b).  Eventual delivery of a held-back JOIN is proved at step level only (C19_join_not_starved_partial: a failed attempt does not move the deadline; at the deadline the JOIN at the head is released); the schedule-level claim is checked on the implementation by steady-polling tails.  Model tied to the source by regenerated '
+              'throttle and JOIN-rate spacing, filter drop = continue on the rest; the driver is only killed with both queues empty, for every state and call (full statement since the fix of C19.F18; die() before the end of MOTD closes at once by design), '
+              'silent refusal by sendMsg (finding F18b).  Eventual delivery of a held-back JOIN is proved at step level only (C19_join_not_starved_partial: a failed attempt does not move the deadline; at the deadline the JOIN at the head is released); the schedule-level claim is checked on the implementation by steady-polling tails.  Model tied to the source by regenerated '
               '_high/_low/JOIN tables and a differential run of events and full send state against a real Irc on every check.')
-LEVEL_NOTE = ('Trusted: Coq kernel, gen_tables.py, extraction + OCaml driver, the Python harness (event reconstruction from queue snapshots, '
+LEVEL_NOTE = ('Messages without a wire form (menc false in the model) are the only ones takeMsg itself discards (theorem C19_only_unencodable_discarded); C19_no_loss_encodable gives the plain ledger under the hypothesis that every accepted message is encodable after the filters.  Trusted: Coq kernel, gen_tables.py, extraction + OCaml driver, the Python harness (event reconstruction from queue snapshots, '
               'filter logs and driver log); Python code is modelled not verified; truncation/labels/echo emulation are outside the model.')
 TECHNIQUE = 'Coq proof (inductive invariants over op histories, fuel induction for the takeMsg recursion) + regenerated tables + extracted-model differential correspondence'
 EXPLANATION = 'C19: send-path model of src/irclib.py; theorems in coq/C19/Props.v'
@@ -83,7 +84,9 @@ def env():
                 if act in (1, 4):
                     new = ircmsgs.IrcMsg(command=msg.command, args=(str(info[2] + 1000),))
                     sess.keep.append(new)
+                    sess.out = new
                     return new
+                sess.out = msg
                 return msg
             info = sess.cur
             if info and info[3] in (3, 4):
@@ -119,7 +122,7 @@ def run_impl(case):
     set_conf(conf, cfg)
     sess = Sess()
     sess.ft = E['FakeTime']()
-    sess.info, sess.keep, sess.seen, sess.dropped, sess.cur = {}, [], [], [], None
+    sess.info, sess.keep, sess.seen, sess.dropped, sess.cur, sess.out = {}, [], [], [], None, None
     saved_time = irclib.time
     irclib.time = sess.ft
     irc = None
@@ -140,7 +143,8 @@ def run_impl(case):
                                                     int('die' in irc.driver.log)]
 
     def mk(m):
-        obj = ircmsgs.IrcMsg(command=m[1], args=(str(m[2]),))
+        bad = len(m) > 5 and m[5]
+        obj = ircmsgs.IrcMsg(command=m[1], args=(str(m[2]) + ('\udc80' if bad else ''),))
         sess.info[id(obj)] = m
         sess.keep.append(obj)
         return obj
@@ -219,6 +223,10 @@ def run_impl(case):
                             key = -1
                         evs.append([4, ent(orig), ret.command, key, int(sess.seen[-1][1]) if sess.seen else int(sess.ft.T)])
                         fact['delivered'] = orig
+                    elif sess.seen and id(sess.seen[-1][0]) not in dropped:
+                        # consumed, not dropped by a filter, nothing returned: takeMsg discarded it itself
+                        evs.append([8, ent(sess.seen[-1][0])])
+                        fact['unsendable'] = (sess.seen[-1][0], sess.out)
                     fact['dropped'] = list(sess.dropped)
                     fact['took'] = took
                 if code == 4:
@@ -265,7 +273,7 @@ def oracle(case, facts):
     throttle, jlimit = cfg[0], cfg[1]
     out = []
     seq = {}          # id(obj) -> acceptance order
-    accepted, delivered, dropped, flushed = [], [], [], []
+    accepted, delivered, dropped, flushed, unsendable = [], [], [], [], []
     last_qtake = None
     last_join = None
     die_asked_connected = False
@@ -293,6 +301,20 @@ def oracle(case, facts):
                 dropped.append(m)
             if f.get('delivered') is not None:
                 delivered.append(f['delivered'])
+                try:
+                    str(f['ret']).encode('utf-8')
+                except UnicodeError:
+                    out.append(('wire', 'op %d: takeMsg handed the driver a message that cannot be encoded: %r' % (i, f['ret'])))
+            if f.get('unsendable') is not None:
+                # takeMsg consumed a message and returned nothing although no filter dropped it: only acceptable
+                # for a message that has no wire form (its line cannot be encoded); anything else is a loss
+                orig, final = f['unsendable']
+                try:
+                    str(final).encode('utf-8')
+                    out.append(('ledger', 'op %d: takeMsg took %s from its queue and returned nothing, although no filter dropped it '
+                                'and it can be encoded: lost' % (i, orig.command)))
+                except UnicodeError:
+                    unsendable.append(orig)
             after_ids = dict((id(m), m) for m in flat_after)
             afterq = [m for l in f['after'][1:] for m in l]
             for m, src, t in f['took']:
@@ -324,7 +346,7 @@ def oracle(case, facts):
                                     % (i, m.command, seq[id(m)], p.command, seq[id(p)])))
                         break
             # no stall: an eligible message is returned
-            if f['ret'] is None and not f['died']:
+            if f['ret'] is None and not f['died'] and f.get('unsendable') is None:
                 if f['after'][0]:
                     out.append(('stall', 'op %d: takeMsg returned None with messages in the fastqueue' % i))
                 elif not f['took'] and not f['before'][0] and any(f['before'][1:]):
@@ -347,11 +369,15 @@ def oracle(case, facts):
             ts = tail_start
             polls = case['ops'][tail:len(facts)]
             steady = all(o[0] == 2 for o in polls) and all(polls[k][1] - (polls[k - 1][1] if k else ts['now']) == 1 for k in range(len(polls)))
-            alive = not ts['zombie'] and not ts['died'] and not any(x.get('died') for x in facts)
+            killed = ts['died'] or any(x.get('died') for x in facts)
+            alive = not ts['zombie'] and not killed
             infos = case.get('_infos', {})
             need = ((len(ts['pending']) + 2) * (max(throttle, 0) + max(jlimit, 0) + 2)
                     + sum(infos.get(id(m), 0) for m in ts['pending'])
                     + max(0, ts['lastTake'] - ts['now']) + max(0, ts['lastJoin'] - ts['now']))
+            if steady and ts['zombie'] and die_asked_connected and not killed and len(polls) >= need + 1:
+                out.append(('starved', 'op %d: die() was asked; after %d steady polls (1/s, nothing new queued) the driver has still not been '
+                            'closed and %d message(s) are pending' % (i, len(polls), len(flat_after))))
             if steady and alive and len(polls) >= need:
                 left = [m for m in flat_after if any(m is x for x in ts['pending'])]
                 if left:
@@ -360,7 +386,8 @@ def oracle(case, facts):
                                 % (i, len(polls), throttle, jlimit, len(left), ' '.join(m.command for m in left))))
         # ledger, every step: accepted = delivered + dropped + flushed + pending, each exactly once
         lhs = sorted(id(m) for m in accepted)
-        rhs = sorted([id(m) for m in delivered] + [id(m) for m in dropped] + [id(m) for m in flushed] + [id(m) for m in flat_after])
+        rhs = sorted([id(m) for m in delivered] + [id(m) for m in dropped] + [id(m) for m in flushed] + [id(m) for m in unsendable]
+                     + [id(m) for m in flat_after])
         if lhs != rhs:
             out.append(('ledger', 'op %d: accepted %d messages; delivered %d + dropped %d + flushed %d + pending %d do not add up to them'
                         % (i, len(accepted), len(delivered), len(dropped), len(flushed), len(flat_after))))
@@ -368,34 +395,7 @@ def oracle(case, facts):
     return out
 
 
-# ---------------------------------------------------------------- domain of the drain theorem (extracted Model.drain_dom)
-_dom_cache = {}
-
-
-def _dom_key(case):
-    return wire.enc([case['cfg'], case['ops']])
-
-
-def drain_dom_batch(cases):
-    """evaluate the extracted predicate drain_dom && msgs_pos (op 1 of the model binary) on many histories"""
-    from lib import modelproc
-    todo = [c for c in cases if _dom_key(c) not in _dom_cache]
-    if todo:
-        outs = modelproc.run('C19', [[1, [c['cfg'], c['ops']]] for c in todo])
-        for c, o in zip(todo, outs):
-            if o not in (0, 1):
-                raise RuntimeError('drain_dom: model error %r' % (o,))
-            _dom_cache[_dom_key(c)] = bool(o)
-
-
-def drain_dom(case):
-    """True iff the history is inside the domain of C19_drain_before_die_on_domain (fail-closed: raises if the model is unavailable)"""
-    drain_dom_batch([case])
-    return _dom_cache[_dom_key(case)]
-
-
 CLASSES = {
-    'die_with_pending': lambda inp: inp.get('check') == 'drain' and not drain_dom(inp),
     'send_refused_silently': lambda inp: inp.get('check') == 'send_explicit',
 }
 
@@ -411,7 +411,8 @@ def gen_msg(rng, mid, hostile, tnow):
     r = rng.random()
     act = 0 if r < (0.6 if hostile else 0.8) else rng.choice([1, 2, 3, 4, 2, 3])
     dt = rng.choice([0, 0, 1, 1, 2, 5])
-    return [mid, cmd, key, act, dt]
+    bad = int(rng.random() < (0.12 if hostile else 0.05))      # a lone surrogate in the argument: no UTF-8 form
+    return [mid, cmd, key, act, dt, bad]
 
 
 def gen_case(rng, hostile):
@@ -523,17 +524,20 @@ def gen_tail_case(rng, hostile):
         ops.append(o)
         if len(ops) >= 28:
             break
+    if rng.random() < 0.3:
+        ops.append([5])
+        ops.append([3])
     c['ops'] = ops
     T = max(o[1] for o in ops if o[0] in (2, 4))
     return add_tail(c, T)
 
 
-def M(mid, cmd, key=0, act=0, dt=0):
-    return [mid, cmd, key, act, dt]
+def M(mid, cmd, key=0, act=0, dt=0, bad=0):
+    return [mid, cmd, key, act, dt, bad]
 
 
 CORPUS = [
-    # F18: throttleTime > 0, three queued, die(): second takeMsg is throttled and kills the driver
+    # old witness of C19.F18 (fixed): throttleTime > 0, three queued, die(): the second takeMsg is throttled and used to kill the driver
     {'cfg': [2, 0, 0, 1, 120, 0], 'ops': [[4, 1], [2, 2], [2, 2], [2, 2], [5], [0, M(5, 'PRIVMSG', 0)], [0, M(6, 'PRIVMSG', 1)],
                                           [0, M(7, 'PRIVMSG', 2)], [3], [2, 10], [2, 11]]},
     # same with throttleTime 0 and a stalled clock
@@ -560,6 +564,12 @@ CORPUS = [
                                                   [0, M(7, 'JOIN', 1)], [0, M(8, 'JOIN', 2)]]}, 4),
     add_tail({'cfg': [2, 3, 0, 1, 10, 0], 'ops': [[4, 1], [0, M(1, 'JOIN', 0)], [0, M(2, 'JOIN', 1)], [0, M(3, 'JOIN', 2, 2, 3)], [0, M(4, 'WHO', 1)],
                                                  [1, M(5, 'PONG', 1, 3, 2)]]}, 1),
+    # messages without a wire form (lone surrogate): taken, discarded by takeMsg (UnicodeEncodeError behind the firewall), never delivered;
+    # rewritten by a filter they are delivered; duplicates of different encodability are different messages; last one of a zombie
+    {'cfg': [1, 0, 1, 1, 120, 0], 'ops': [[4, 1], [2, 2], [2, 2], [2, 2], [5], [0, M(5, 'PRIVMSG', 0, 0, 0, 1)], [0, M(6, 'PRIVMSG', 0)], [0, M(7, 'PRIVMSG', 0, 0, 0, 1)],
+                                          [1, M(8, 'PONG', 1, 0, 0, 1)], [0, M(9, 'MODE', 1, 1, 0, 1)], [0, M(10, 'JOIN', 2, 0, 0, 1)], [0, M(11, 'NOTICE', 3, 3, 1, 1)],
+                                          [2, 5], [2, 7], [2, 9], [2, 11], [2, 13], [2, 15], [2, 17], [3], [2, 19], [2, 21]]},
+    {'cfg': [0, 0, 0, 1, 120, 0], 'ops': [[4, 1], [2, 2], [2, 3], [2, 4], [5], [0, M(5, 'PRIVMSG', 0, 0, 0, 1)], [3], [2, 6], [2, 7]]},
     # die before connect; reset while zombie
     {'cfg': [1, 0, 0, 1, 120, 0], 'ops': [[4, 1], [0, M(1, 'PRIVMSG', 0)], [3]]},
     {'cfg': [1, 0, 0, 1, 120, 0], 'ops': [[4, 1], [5], [0, M(2, 'PRIVMSG', 0)], [3], [4, 3]]},
@@ -580,7 +590,7 @@ def dec_obs(out):
         devs = []
         for ev in evs:
             k = ev[0]
-            if k in (0, 3):
+            if k in (0, 3, 8):
                 devs.append([k, dec_entry(ev[1])])
             elif k == 1:
                 devs.append([1, ev[1], ev[2]])
@@ -638,11 +648,6 @@ def run(ctx):
     for (c, kind), mo in zip(cases, outs):
         check_case(ctx, c, mo, kind, sink)
     # failures outside the known classes are reported first and never crowded out by the (frequent) known ones
-    try:
-        drain_dom_batch([inp for inp, _ in sink if inp.get('check') == 'drain'])
-    except Exception:
-        pass
-
     def known(inp):
         try:
             return any(pred(inp) for pred in CLASSES.values())
